@@ -222,6 +222,27 @@ mod k3 {
                 format!("{} {}", fcp(&r), tail_local(&p12, &*g1, &*g2)) }
             // ONE simplex shared by a sequence of `*_with_params` queries (the entry points reset it themselves)
             "vs3" => exec_vs(a),
+            // the same history, printed for the bit-exact model: result (+ direction) and the simplex left behind by every query
+            "gjkm3" => { let n = a.u(); let mut simplex = VoronoiSimplex::new(); let mut out = Vec::new();
+                for _ in 0..n {
+                    let op = a.tok().to_string();
+                    let m = if op == "c" { a.f() } else { 0.0 };
+                    let s1 = Sh::parse(a); let s2 = Sh::parse(a); let p12 = d3::iso(a);
+                    let (g1, g2) = (s1.build(), s2.build());
+                    let (m1, m2) = (g1.as_support_map().expect("support map"), g2.as_support_map().expect("support map"));
+                    let head = quiet(|| if op == "d" {
+                        ff(query::details::distance_support_map_support_map_with_params(&p12, m1, m2, &mut simplex, None))
+                    } else {
+                        match query::details::closest_points_support_map_support_map_with_params(&p12, m1, m2, m, &mut simplex, None) {
+                            GJKResult::ClosestPoints(p1, p2, d) => format!("W {} {} {}", d3::fp(&p1), d3::fp(&p2), d3::fv(&d)),
+                            GJKResult::NoIntersection(d) => format!("D {}", d3::fv(&d)),
+                            GJKResult::Intersection => "I".into(),
+                            GJKResult::Proximity(d) => format!("U {}", d3::fv(&d)),
+                        }
+                    });
+                    match head { Some(h) => out.push(format!("{} {}", h, vs_dump(&simplex))), None => { out.push("panic".into()); break; } }
+                }
+                out.join(" ") }
             "gjkh3" => { let n = a.u(); let mut simplex = VoronoiSimplex::new(); let mut out = Vec::new();
                 for _ in 0..n {
                     let op = a.tok().to_string();
@@ -446,6 +467,29 @@ mod k3 {
         }
         let nv = if thorough { 6000 } else { 600 };
         for it in 0..nv { let h = gen_vs(r, it % 2 == 0); v.push(("vs3".into(), h)); }
+        // ---- modelled histories (bit-exact): support maps of the C10 model only, incl. coincident frames (x-axis start direction)
+        const MK: [&str; 11] = ["cuboid", "capsule", "segment", "triangle", "cone", "cylinder", "ball", "roundcuboid", "roundtriangle", "roundcylinder", "roundcone"];
+        let nm = if thorough { 1500 } else { 150 };
+        for it in 0..nm {
+            let lat = it % 3 == 0;
+            let n = 1 + r.below(4) as usize;
+            let mut toks = vec![format!("{}", n)];
+            let same = r.bool();
+            let mut pair = ({ let k = *r.pick(&MK); gen_shape(r, k, lat) }, { let k = *r.pick(&MK); gen_shape(r, k, lat) });
+            for _ in 0..n {
+                if !same { pair = ({ let k = *r.pick(&MK); gen_shape(r, k, lat) }, { let k = *r.pick(&MK); gen_shape(r, k, lat) }); }
+                let reach = pair.0.size() + pair.1.size();
+                let mut p12 = if r.below(5) == 0 { Isometry::identity() } else { d3::gen_iso(r, lat, 0.0) };
+                let dist = if lat { *r.pick(&[0.0, 2.0, 4.0, 8.0]) } else { reach * r.uniform(0.0, 2.5) };
+                let off = gen_unit(r, lat) * dist;
+                let mut g2 = pair.1.clone();
+                if r.below(4) == 0 { g2 = g2.shifted(&off); p12.translation.vector = Vector::zeros(); } else { p12.translation.vector = off; }
+                let reach = pair.0.size() + g2.size();
+                let op = if r.bool() { "d".to_string() } else { format!("c {}", hx(if r.bool() { f64::MAX } else { reach * r.uniform(0.0, 3.0) })) };
+                toks.push(format!("{} {} {} {}", op, pair.0.tokens(), g2.tokens(), d3::hiso(&p12)));
+            }
+            v.push(("gjkm3".into(), toks.join(" ")));
+        }
         }
         // ---- focused streams for the SAT-derived routes: closest_points triangle×cuboid and distance cuboid×cuboid
         let nf = if thorough { 3000 } else { 250 };
@@ -643,6 +687,27 @@ mod k2 {
                 let r = DefaultQueryDispatcher.closest_points(&p12, &*g1, &*g2, m);
                 format!("{} {}", fcp(&r), tail_local(&p12, &*g1, &*g2)) }
             "vs2" => exec_vs(a),
+            // the same history, printed for the bit-exact model: result (+ direction) and the simplex left behind by every query
+            "gjkm2" => { let n = a.u(); let mut simplex = VoronoiSimplex::new(); let mut out = Vec::new();
+                for _ in 0..n {
+                    let op = a.tok().to_string();
+                    let m = if op == "c" { a.f() } else { 0.0 };
+                    let s1 = Sh::parse(a); let s2 = Sh::parse(a); let p12 = d2::iso(a);
+                    let (g1, g2) = (s1.build(), s2.build());
+                    let (m1, m2) = (g1.as_support_map().expect("support map"), g2.as_support_map().expect("support map"));
+                    let head = quiet(|| if op == "d" {
+                        ff(query::details::distance_support_map_support_map_with_params(&p12, m1, m2, &mut simplex, None))
+                    } else {
+                        match query::details::closest_points_support_map_support_map_with_params(&p12, m1, m2, m, &mut simplex, None) {
+                            GJKResult::ClosestPoints(p1, p2, d) => format!("W {} {} {}", d2::fp(&p1), d2::fp(&p2), d2::fv(&d)),
+                            GJKResult::NoIntersection(d) => format!("D {}", d2::fv(&d)),
+                            GJKResult::Intersection => "I".into(),
+                            GJKResult::Proximity(d) => format!("U {}", d2::fv(&d)),
+                        }
+                    });
+                    match head { Some(h) => out.push(format!("{} {}", h, vs_dump(&simplex))), None => { out.push("panic".into()); break; } }
+                }
+                out.join(" ") }
             "gjkh2" => { let n = a.u(); let mut simplex = VoronoiSimplex::new(); let mut out = Vec::new();
                 for _ in 0..n {
                     let op = a.tok().to_string();
@@ -783,6 +848,29 @@ mod k2 {
         }
         let nv = if thorough { 6000 } else { 600 };
         for it in 0..nv { let h = gen_vs(r, it % 2 == 0); v.push(("vs2".into(), h)); }
+        // ---- modelled histories (bit-exact): support maps of the C10 model only, incl. coincident frames (x-axis start direction)
+        const MK: [&str; 7] = ["cuboid", "capsule", "segment", "triangle", "ball", "roundcuboid", "roundtriangle"];
+        let nm = if thorough { 1500 } else { 150 };
+        for it in 0..nm {
+            let lat = it % 3 == 0;
+            let n = 1 + r.below(4) as usize;
+            let mut toks = vec![format!("{}", n)];
+            let same = r.bool();
+            let mut pair = ({ let k = *r.pick(&MK); gen_shape(r, k, lat) }, { let k = *r.pick(&MK); gen_shape(r, k, lat) });
+            for _ in 0..n {
+                if !same { pair = ({ let k = *r.pick(&MK); gen_shape(r, k, lat) }, { let k = *r.pick(&MK); gen_shape(r, k, lat) }); }
+                let reach = pair.0.size() + pair.1.size();
+                let mut p12 = if r.below(5) == 0 { Isometry::identity() } else { d2::gen_iso(r, lat, 0.0) };
+                let dist = if lat { *r.pick(&[0.0, 2.0, 4.0, 8.0]) } else { reach * r.uniform(0.0, 2.5) };
+                let off = gen_unit(r, lat) * dist;
+                let mut g2 = pair.1.clone();
+                if r.below(4) == 0 { g2 = g2.shifted(&off); p12.translation.vector = Vector::zeros(); } else { p12.translation.vector = off; }
+                let reach = pair.0.size() + g2.size();
+                let op = if r.bool() { "d".to_string() } else { format!("c {}", hx(if r.bool() { f64::MAX } else { reach * r.uniform(0.0, 3.0) })) };
+                toks.push(format!("{} {} {} {}", op, pair.0.tokens(), g2.tokens(), d2::hiso(&p12)));
+            }
+            v.push(("gjkm2".into(), toks.join(" ")));
+        }
         }
         let n = if thorough { 3000 } else { 300 };
         for it in 0..n {
